@@ -20,6 +20,8 @@ CLAUSES = (
     ':submit-failed, optional :finish and conflicting optionality; the tuple '
     'returned by GraphNodeParser.parse is unpacked in the same order by its '
     'callers and reaches TaskTrigger\'s parameters in matching positions. '
+    'the node-rewrite patterns of _proc_dep_pair (folded and probed with '
+    'sample nodes) match their own node and no other node form. '
     'Not decided: equivalence of parse results across renderings.')
 
 GP = 'graph_parser'
@@ -30,7 +32,80 @@ def _raises(c, f):
             and n.exc is not None and 'GraphParseError' in norm(n.exc)]
 
 
+def _rewrite_regex_rules(c):
+    """The node rewrites of _proc_dep_pair (`re.sub(this, that, expr)` over
+    the *whole* left-hand expression) must hit exactly the node they were
+    built for: the pattern for a plain `foo` must not match the `foo` of
+    `foo[-P1]` or `foo:fail` elsewhere in the expression, the pattern for
+    `foo[-P1]` not the prefix of `foo[-P1]:fail`.  The templates are folded
+    from the source and probed with sample nodes."""
+    import re as _re
+    R = 'C14.rewrite-regex'
+    f = c.func(GP, 'GraphParser._proc_dep_pair')
+    forms = {'n': 'foo', 'no': 'foo[-P1]', 'nt': 'foo:fail',
+             'not': 'foo[-P1]:fail'}
+    others = {'n': ['foo[-P1]', 'foo:fail', 'foo[-P1]:fail', 'xfoo', 'foox',
+                    'foo:succeeded | bar'],
+              'no': ['foo[-P1]:fail', 'foo', 'foo[-P2]', 'foo:fail'],
+              'nt': ['foo:failed', 'foo', 'foo[-P1]:fail'],
+              'not': ['foo:fail', 'foo[-P2]:fail', 'foo[-P1]', 'foo']}
+    seen = set()
+    for n in ast.walk(f.node):
+        if not (isinstance(n, ast.Assign) and norm(n.targets[0]) == 'this'
+                and isinstance(n.value, ast.BinOp)
+                and isinstance(n.value.op, ast.Mod)):
+            continue
+        tpl = c.fold(n.value.left)
+        args = n.value.right.elts if isinstance(
+            n.value.right, ast.Tuple) else [n.value.right]
+        kinds = []
+        okargs = True
+        for a in args:
+            inner = a.args[0] if isinstance(a, ast.Call) and norm(
+                a.func) == 're.escape' and a.args else None
+            if inner is None:
+                okargs = False
+                break
+            kinds.append(norm(inner))
+        c.ob(R, c.key(n, f)[:80] + ' built from escaped fragments', okargs
+             and isinstance(tpl, str), c.where(n, f), '')
+        if not (okargs and isinstance(tpl, str)):
+            continue
+        sample = {'name': 'foo', 'offset': '[-P1]', 'trig': 'fail'}
+        if any(k not in sample for k in kinds):
+            c.ob(R, c.key(n, f)[:80] + ' fragments are name/offset/trig',
+                 False, c.where(n, f), str(kinds))
+            continue
+        kind = 'n' + ('o' if 'offset' in kinds else '') + (
+            't' if 'trig' in kinds else '')
+        try:
+            rx = _re.compile(tpl % tuple(_re.escape(sample[k])
+                                         for k in kinds))
+        except Exception as exc:
+            c.ob(R, c.key(n, f)[:80] + ' compiles', False, c.where(n, f),
+                 str(exc))
+            continue
+        seen.add(kind)
+        own = forms[kind]
+        hit = [t for t in (own, f'a | {own} & b', f'({own})')
+               if not (rx.search(t) and rx.search(t).group(0) == own)]
+        c.ob(R, c.key(n, f)[:80] + f' matches its own node `{own}`',
+             not hit, c.where(n, f), f'{rx.pattern!r} misses {hit}' if hit
+             else rx.pattern)
+        # the in-loop family substitution is built with an empty offset for
+        # plain nodes: only nodes that differ from `own` are probed
+        bad = [t for t in others[kind] if rx.search(t)]
+        c.ob(R, c.key(n, f)[:80] + ' matches no other node',
+             not bad, c.where(n, f), f'{rx.pattern!r} also rewrites inside '
+             f'{bad}: the recorded expression is corrupted when both nodes '
+             'occur in one conditional left-hand side' if bad else rx.pattern)
+    c.ob(R, f'{f.fq} :: rewrite patterns for plain, offset, qualified and '
+         'offset+qualified nodes', seen >= {'n', 'no', 'nt', 'not'},
+         c.where(f.node, f), str(sorted(seen)))
+
+
 def check(c):
+    _rewrite_regex_rules(c)
     # ---- regex taint
     n_calls = 0
     for mod in (GP, 'graphnode', 'param_expand'):
@@ -238,6 +313,10 @@ def check(c):
 
 
 VARIANTS = [
+    ('plain-node-rewrite-hits-offset-node', 'cylc/flow/graph_parser.py',
+     "                        this = r'\\b%s\\b(?![\\[:])' % re.escape(name)",
+     "                        this = r'\\b%s\\b(?!:)' % re.escape(name)",
+     'C14.rewrite-regex'),
     ('unescaped-name', 'cylc/flow/graph_parser.py',
      "                        this = r'\\b%s\\b(?![\\[:])' % re.escape(name)",
      "                        this = r'\\b%s\\b(?![\\[:])' % name",
